@@ -723,6 +723,12 @@ Hnextread(int32 access_id, uint16 tag, uint16 ref, int origin)
             default: /* do nothing for other cases currently */
                 break;
         } /* end switch */
+
+        /* the special information has been released: until another element is selected below,
+           the access record is an ordinary one (the search may fail, and Hendaccess() must
+           still be able to release the record) */
+        access_rec->special      = 0;
+        access_rec->special_info = NULL;
     }
 
     if (origin == DF_START) { /* set up variables to start searching from beginning of file */
